@@ -16,6 +16,27 @@ CHECKS = {
     ),
 }
 
+CHECKS.update({
+    "C12": dict(
+        technique="Lean 4 proof (induction over evaluation histories) on a model of the trackers and search loops + differential correspondence (all histories over 3 values up to length 6)",
+        text="Theorems (Props/C12.lean, 9) prove for ALL histories: the tracked best has the maximum aggregate at every prefix, the is_best flag holds iff first or strictly better than all earlier, the multi-objective list only holds individuals attaining the best aggregate, and every search returns the tracker's best; the full 'at least as good as every individual evaluated' statement is proved under the hypothesis that every evaluated individual reaches the tracker (C12_best_of_evaluated_partial) and refuted for GP steps that evaluate internally (C12_gp_step_evaluation_witness, open finding). Tied to the code by exhaustive small histories and real searches.",
+        note="Trusted: Lean kernel + standard axioms; model validated on explored inputs only; fitness values are integers of an arbitrary linear order (NaN outside the model).",
+        design="5/C12",
+    ),
+    "C13": dict(
+        technique="Lean 4 proof (invariant `Honest` preserved by any sequence of sequential/parallel evaluate calls; parallel = sequential for every completion permutation) + differential correspondence incl. real ParallelEvaluator runs with a file-backed invocation log",
+        text="Theorems (Props/C13.lean, 8): aggregates (maximise / minimise / signed sum / user aggregate); from any honest state, any sequence of evaluate calls of either evaluator over any batches (duplicates, already evaluated, empty) keeps fitness = ff(phenotype), counter = number of invocations, at most one evaluation per (individual, problem); the parallel evaluator equals the sequential one for EVERY completion order of the workers.",
+        note="Partial by nature: OS scheduling and pickling inside pathos are abstracted to an arbitrary completion permutation (the harness feeds the observed order to the model). Trusted: Lean kernel + standard axioms; model validated on explored inputs only.",
+        design="5/C13",
+    ),
+    "C14": dict(
+        technique="Lean 4 proof about the abstract search loop (check; stop or evaluate k_i more) for all budgets / increments + differential correspondence with spy budgets (n <= 20 x sizes <= 6 x 4 algorithms exhaustively)",
+        text="Theorems (Props/C14.lean, 12): the loop stops at the first check at which the budget is met and at no earlier one; with 1 <= k_i <= B it terminates with n <= total < n + B (B = 1 random search / 1+1, neighbourhood size for hill climbing, population size for GP); TargetFitness stops at the first check within tolerance; AnyOf stops at the earlier of its members. GP termination needs the Progress hypothesis (every generation evaluates at least one new individual); without it the loop provably never stops (C14_no_progress_never_stops, C14_gp_nonterminating_witness: open finding).",
+        note="Partial: for probabilistic steps Progress holds only almost surely; TimeBudget excluded by the property. Trusted: Lean kernel + standard axioms; model validated on explored inputs only.",
+        design="5/C14",
+    ),
+})
+
 NOT_YET = {}
 
 
